@@ -25,8 +25,10 @@ DECIDES = ('(SIG) prototype and definition of __pyx_memoryview_slice_memviewslic
            'each start/stop/step/have_* argument is computed from the matching slice attribute; (DEF) in the C definition each `if (have_<x>)` has an else branch that defaults '
            'exactly <x>, every error report is followed by `return -1`, the zero-step test guards a ValueError; (INDEX) the integer-index code (SliceIndex template for all flag '
            'values, !is_slice branch of the helper) adds the length to negative indices before the bounds test when wraparound is on and reaches the pointer offset computation '
-           'only after the bounds test when boundscheck is on, raising IndexError otherwise.')
-NOT_DECIDED = ('clamping of slice bounds and the new_shape computation (index arithmetic), suboffset bookkeeping, _unellipsify / ellipsis and None handling in MemoryView.pyx, '
+           'only after the bounds test when boundscheck is on, raising IndexError otherwise.'
+           ' (SLICE) the start/stop normalisation of a sliced axis equals PySlice_AdjustIndices on the complete class partition of the bounds relative to the axis length '
+           '(both step signs, absent bounds, symbolic length and lengths 0..3) and the extent is 0 when stop is not in the direction of the step and (|stop-start|-1)/|step|+1 otherwise.')
+NOT_DECIDED = ('suboffset bookkeeping and the data-pointer offset of a slice, _unellipsify / ellipsis and None handling in MemoryView.pyx, '
                'the SimpleSlice copy semantics beyond its variable reads')
 ASSUMPTIONS = ['template variables that only occur in {{if}} conditions are two-valued for the purpose of expanding the SliceIndex template']
 
@@ -676,4 +678,5 @@ def rule_index(ctx, M):
 
 def run(ctx):
     M = Model(ctx)
-    return [rule_sig(ctx, M), rule_extern(ctx, M), rule_tpl(ctx, M), rule_ctx(ctx, M), rule_calls(ctx, M), rule_def(ctx, M), rule_index(ctx, M)]
+    from ..rules import slicenorm
+    return [rule_sig(ctx, M), rule_extern(ctx, M), rule_tpl(ctx, M), rule_ctx(ctx, M), rule_calls(ctx, M), rule_def(ctx, M), rule_index(ctx, M), slicenorm.rule_slice(ctx)]
